@@ -6,6 +6,8 @@ import NodisVerif.Proofs.C03Api
 import NodisVerif.Proofs.C03Seq
 import NodisVerif.Proofs.C03Refine
 import NodisVerif.Proofs.C03Oids
+import NodisVerif.Proofs.C03Float
+import NodisVerif.Proofs.FloatDecTrip
 /-
   C03 — hashes and sets behave as exact maps and mathematical sets.
 
@@ -928,6 +930,58 @@ theorem spop_negative_count_finding (s : MState) (now : Int) (key : Bytes) (st :
 
 end F
 
+/-! ## HINCRBYFLOAT on decimal float text (work package C)
+
+  `Api.hincrbyfloat` = ds/hash `HIncrByFloat`: a missing field is set to FormatFloat(delta,'f',-1,64); otherwise
+  ParseFloat of the field's text, IEEE addition, FormatFloat of the sum. Since Model/FloatDec.lean the text may be any
+  decimal float; `.unsupported` remains only for hexadecimal float text and more than 800 significant digits. -/
+section hfloat
+open NodisVerif.Proofs.C03Seq (hfloatStep)
+open Store
+
+/-- on the content: what the step does, case by case -/
+theorem hincrbyfloat_spec (h : DsHash.H) (f : Bytes) (delta : F64) :
+    (DsHash.hget h f = none →
+      hfloatStep h f delta = some (some ((DsHash.hset h f (FloatDec.formatShortest delta)).1, delta))) ∧
+    (∀ v o, DsHash.hget h f = some v → Api.parseFloatText v = some (some o) →
+      hfloatStep h f delta =
+        some (some ((DsHash.hset h f (FloatDec.formatShortest (F64.add o delta))).1, F64.add o delta))) ∧
+    (∀ v, DsHash.hget h f = some v → Api.parseFloatText v = some none → hfloatStep h f delta = some none) := by
+  refine ⟨fun hg => ?_, fun v o hg hp => ?_, fun v hg hp => ?_⟩ <;> unfold hfloatStep <;> simp only [hg] <;> simp only [hp]
+
+/-- against the store: reply, new content (the representation relation of section F is kept), index order -/
+theorem hincrbyfloat_rel (s : MState) (now : Int) (key f : Bytes) (delta : F64) (h : AList Bytes)
+    (hr : HashRel s key now h) (hi : IndexSorted s) :
+    (Api.hincrbyfloat s now key f delta).2 =
+      (match hfloatStep h f delta with
+       | none => .unsupported
+       | some none => .many [.f64 0, .err true]
+       | some (some (_, v)) => .many [.f64 v, .err false]) ∧
+    HashRel (Api.hincrbyfloat s now key f delta).1 key now
+      (match hfloatStep h f delta with | some (some (h', _)) => h' | _ => h) ∧
+    IndexSorted (Api.hincrbyfloat s now key f delta).1 :=
+  Proofs.C03Seq.hincrbyfloat_rel s now key f delta h hr hi
+
+/-- two increments in a row read back what was stored (partial in the sense of `C04.formatShortest_roundtrip_partial`):
+    after `HINCRBYFLOAT k f d1` stored the text of a sum x (not NaN, not from the 17-digit fallback), the next step
+    computes x + d2 -/
+theorem hincrbyfloat_reads_back_partial (h : DsHash.H) (f : Bytes) (x d2 : F64)
+    (hg : DsHash.hget h f = some (FloatDec.formatShortest x)) (hnan : F64.isNaN x = false)
+    (hsr : F64.isInf x = true ∨ F64.isZero x = true ∨ (FloatDec.searchShortest x).isSome = true) :
+    hfloatStep h f d2 = some (some ((DsHash.hset h f (FloatDec.formatShortest (F64.add x d2))).1, F64.add x d2)) :=
+  (hincrbyfloat_spec h f d2).2.1 _ x hg (Proofs.FloatDecTrip.formatShortest_roundtrip_partial x hnan hsr)
+
+/-- non-vacuity: field "f" holds "10.5"; +0.1 gives 10.6 with text "10.6"; a field holding "1e400" is an error;
+    on a missing field the increment 0.1 itself is stored as "0.1" -/
+example :
+    hfloatStep [([102], Bytes.ofString "10.5")] [102] 0x3FB999999999999A =
+      some (some ([([102], Bytes.ofString "10.6")], 0x4025333333333333)) ∧
+    hfloatStep [([102], Bytes.ofString "1e400")] [102] 1 = some none ∧
+    hfloatStep [] [102] 0x3FB999999999999A = some (some ([([102], Bytes.ofString "0.1")], 0x3FB999999999999A)) ∧
+    hfloatStep [([102], Bytes.ofString "0x1p3")] [102] 1 = none := Proofs.C03Seq.hfloatStep_examples
+
+end hfloat
+
 /- UNPROVED (not attempted / out of reach in this round):
    * SMOVE between two different keys with the member present is now proved (`smove_between_keys`: destination
      gains the member, source keeps the rest or ceases to exist, reply 1, every other record untouched), under the
@@ -940,9 +994,10 @@ end F
      name: needs injectivity of `Codec.encodeKey`, Proofs/C10Base.lean, and the backend invariants of C11 / C13)
      and for the string / list / zset writers (not needed for C03). `smove_between_keys_needs_unshared_objects`
      shows SMOVE changing a third key in a store where two records share an object.
-   * HINCRBYFLOAT: `Api.hincrbyfloat` is only modelled on the integer-valued fragment of float
-     arithmetic (`.unsupported` elsewhere, and those branches leave a freshly created empty hash behind);
-     no statement is made about it. HSCAN / SSCAN are not in C03's command list.
+   * HINCRBYFLOAT: since work package C covered on decimal float text of any form (`hincrbyfloat_spec`,
+     `hincrbyfloat_rel`, `hincrbyfloat_reads_back_partial`); `.unsupported` remains for a field holding hexadecimal
+     float text or more than 800 significant digits; the command is not yet part of the sequence machine
+     (`execHash`). HSCAN / SSCAN are not in C03's command list.
    * The sequence theorems are per key (one hash key or one set key at a time). Interleavings with commands
      on *other* keys are not stated as sequence theorems; the two ingredients are proved: under `StoreInv` a
      single-key writer leaves every other record as it was (`writers_leave_other_keys`) and keeps `StoreInv`,
